@@ -58,7 +58,9 @@ def inv_cfgs(tier, seed):
     ]
     for vi, v in enumerate(variants):
         for si, s in enumerate(INV_SHAPES):
-            for th in (2, 3):
+            for th in (1, 2, 3):
+                if th == 1 and (vi not in (0, 1) or si not in (0, 3)):
+                    continue  # one-element blocks: a few configurations only (many blocks)
                 for merge in (True, False):
                     if tier == "quick" and (vi + si + th + int(merge) + seed) % 4 != 0:
                         continue
